@@ -680,6 +680,7 @@ func (t *State) Walk(blockid []byte, ledgerPrune bool) error {
 	xTimer.Mark("walk_todo_block")
 
 	// 异步回放被回滚未确认交易
+	verifRecoverStart()
 	go t.recoverUnconfirmedTx(undoList)
 
 	t.log.Info("utxo walk finish", "dest_block", hex.EncodeToString(blockid),
@@ -1194,6 +1195,7 @@ func (t *State) payFee(tx *pb.Transaction, batch kvdb.Batch, block *pb.InternalB
 }
 
 func (t *State) recoverUnconfirmedTx(undoList []*pb.Transaction) {
+	defer verifRecoverDone()
 	xTimer := timer.NewXTimer()
 	t.log.Info("start recover unconfirm tx", "tx_count", len(undoList))
 
